@@ -9,6 +9,7 @@ import SslModel.Model.TyText
 import SslModel.Model.ValText
 import SslModel.Model.StdLib
 import SslModel.Model.Conc
+import SslModel.Model.Check
 /-! Model side of the correspondence: one request per line on stdin, one canonical answer per
     line on stdout.  Import-free apart from the model, so it links as a native executable. -/
 open Ssl
@@ -157,6 +158,23 @@ def handleProg (rest : String) : String :=
     | _, _ => "(bad-program)"
   | _ => "(bad-request)"
 
+/-- `tyof ((x T)*) (S*)` : the static type the checker model assigns to a statement list of the first-order fragment
+    whose free variables have the given types -/
+def handleTyOf (rest : String) : String :=
+  match Sexp.parseMany rest with
+  | [.list binds, .list stmts] =>
+    let g := binds.mapM fun (b : Sexp) => match b with
+      | Sexp.list [Sexp.atom x, t] => (Ty.ofSexp t).map fun t => (x, t)
+      | _ => none
+    match g, stmts.mapM Spec.exprOf with
+    | some g, some ss =>
+      match (Check.tyOfSeq g.reverse ss) with
+      | .ok (t, _) => "(ok " ++ t.render ++ ")"
+      | .ill => "(ill)"
+      | .unsup => "(unsup)"
+    | _, _ => "(bad-program)"
+  | _ => "(bad-request)"
+
 /-- `repl <flags> <fuel> (name*) (S*)*` -/
 def handleRepl (rest : String) : String :=
   match Sexp.parseMany rest with
@@ -244,6 +262,7 @@ def handleConc (all : Bool) (ncells inits threads : String) : String :=
 def handle (line : String) : String :=
   if line.startsWith "valdebug " || line.startsWith "valparse " then handleVal line else
   if line.startsWith "repl " then handleRepl ((line.drop 5).trimAscii.toString) else
+  if line.startsWith "tyof " then handleTyOf ((line.drop 5).trimAscii.toString) else
   if line.startsWith "prog " then handleProg ((line.drop 5).trimAscii.toString) else
   if line.startsWith "ty " then handleTy ((line.drop 3).trimAscii.toString) else
   match line.trimAscii.toString.splitOn " " with
